@@ -168,6 +168,17 @@ class PyEval(MiniEval):
             return a + b if isinstance(op, ast.Add) else a * b
         if isinstance(a, int) and not isinstance(a, bool) and isinstance(b, list) and isinstance(op, ast.Mult) and a < 10000:
             return a * b
+        if isinstance(a, dict) and isinstance(b, dict) and isinstance(op, ast.BitOr):
+            return {**a, **b}
+        if isinstance(a, (set, frozenset)) and isinstance(b, (set, frozenset)):
+            if isinstance(op, ast.BitOr):
+                return set(a) | set(b)
+            if isinstance(op, ast.BitAnd):
+                return set(a) & set(b)
+            if isinstance(op, ast.Sub):
+                return set(a) - set(b)
+            if isinstance(op, ast.BitXor):
+                return set(a) ^ set(b)
         raise Unsupported(f"binop {type(op).__name__} of {a!r}, {b!r}")
 
     def unary(self, op: ast.unaryop, a: Any) -> Any:
@@ -431,6 +442,17 @@ class PyEval(MiniEval):
                 return recv.pop(*A())
             if isinstance(recv, dict) and m == "copy" and not node.args:
                 return dict(recv)
+            if isinstance(recv, dict) and m == "update" and len(node.args) == 1 and isinstance(A()[0], dict) and not node.keywords:
+                recv.update(A()[0])
+                return None
+            if isinstance(recv, (set, frozenset)) and m in ("union", "intersection", "difference", "issubset", "issuperset", "copy") \
+                    and all(isinstance(x, (set, frozenset, list, tuple)) for x in A()):
+                return getattr(set(recv), m)(*[set(x) for x in A()])
+            if isinstance(recv, set) and m == "update" and all(isinstance(x, (set, frozenset, list, tuple)) for x in A()):
+                recv.update(*A())
+                return None
+            if fn in ("set.intersection", "set.union") and A() and all(isinstance(x, (set, frozenset)) for x in A()):
+                return getattr(set, fn[4:])(*[set(x) for x in A()])
             if isinstance(recv, set) and m in ("add", "discard"):
                 getattr(recv, m)(A()[0])
                 return None
